@@ -372,7 +372,7 @@ class C05Gen(C12Gen):
         if r < 0.4:
             k = rng.choice([2, 2, 3])
             probs = rand_probs(rng, k)
-            items = [[num(rng.choice([0, 1, 2, 3, -1, 5])) if rng.random() < 0.7 else var(rng.choice(fin)), fstr(probs[i])] for i in range(k)]
+            items = [[num(rng.choice([0, 1, 2, 3, -1, 5, Fraction(1, 2), Fraction(3, 2)])) if rng.random() < 0.7 else var(rng.choice(fin)), fstr(probs[i])] for i in range(k)]
             if rng.random() < 0.5:
                 items[-1][1] = None
             return ["choice", items]
@@ -442,10 +442,11 @@ class C05Gen(C12Gen):
         if r < 0.45 and self.flags and budget[0] > 1:
             # a variable leaves its value set in the middle of the iteration and is folded back: t = t + g; t = t*(2 - t)
             t = rng.choice(self.flags)
-            g = rng.choice(self.flags)
+            others = [x for x in self.flags if x != t]
             budget[0] -= 2
             self._pending = ["assign", t, ["mul", var(t), ["sub", num(2), var(t)]]]
-            return ["assign", t, ["add", var(t), var(g)]]
+            # never t + t: doubling followed by squaring makes the value sets explode (the typer then runs for minutes)
+            return ["assign", t, ["add", var(t), var(rng.choice(others)) if others else num(1)]]
         budget[0] -= 1
         t = rng.choice(self.all)
         if t in fin or (self.simple and rng.random() < 0.5):
@@ -616,6 +617,42 @@ def symbolise(prog, rng, sym="p"):
     visit(prog["init"])
     visit(prog["body"])
     return n[0]
+
+
+def delay_line_c05(rng, depth):
+    """w_1 = w_2; w_2 = w_3; ...; w_k = <growing>: failure of the growing source has to travel `depth` loop-carried
+    copies backwards before it reaches w_1"""
+    names = ["w", "x", "y", "u", "v", "a"][: depth + 1]
+    init = [["assign", n, num(0)] for n in names] + [["assign", "z", num(0)]]
+    body = [["assign", names[i], var(names[i + 1])] for i in range(depth)]
+    src = names[-1]
+    r = rng.random()
+    if r < 0.4:
+        body.append(["assign", src, ["add", var(src), num(1)]])
+    elif r < 0.8:
+        body.append(["assign", src, ["choice", [[["add", var(src), num(1)], "1/2"], [["add", var(src), num(2)], None]]]])
+    else:
+        body.append(["assign", src, ["mul", num(2), ["add", var(src), num(1)]]])
+    body.append(["assign", "z", ["add", var("z"), ["pow", var(names[0]), 2]]])
+    if rng.random() < 0.4:
+        body.insert(0, ["assign", "f", ["draw", "Bernoulli", [num(Fraction(1, 2))]]])
+        init.append(["assign", "f", num(0)])
+    return {"types": [], "init": init, "guard": ["true"], "body": body}
+
+
+def guard_to_if(prog, rng):
+    """the same assignments, but the loop guard becomes an ordinary branch condition (the body is not a single `if`, so
+    Polar does not merge the condition back into the guard)"""
+    import copy as _copy
+    if prog["guard"] == ["true"]:
+        return None
+    p = _copy.deepcopy(prog)
+    extra = ["assign", "h", ["draw", "Bernoulli", [num(Fraction(1, 2))]]]
+    p["init"] = p["init"] + [["assign", "h", num(0)]]
+    p["body"] = [["if", [[p["guard"], p["body"]]], None], extra]
+    p["guard"] = ["true"]
+    p["types"] = []
+    return p
 
 
 def gen_c05_program(rng):
